@@ -96,11 +96,14 @@ func (cache *MemoryCache[K, V]) Set(key K, value V, ttlSec float64) error {
 		// The choice to put the check outside of the lock is intentional,
 		// we are 'saving' value allocation and lock by checking the size first
 		itemSize = cache.calculateSizeFunc(key, value)
-		if cache.currentCacheSize+itemSize > cache.maxCacheSize {
+		cache.mutex.RLock()
+		currentCacheSize := cache.currentCacheSize
+		cache.mutex.RUnlock()
+		if currentCacheSize+itemSize > cache.maxCacheSize {
 			return fmt.Errorf(
 				"Cannot add item: max cache size would be exceeded."+
 					" Current cache size is %v",
-				cache.currentCacheSize)
+				currentCacheSize)
 		}
 	}
 
